@@ -20,6 +20,7 @@ type schedReader struct {
 	data  []byte
 	sched []int
 	calls int
+	eager bool // the last bytes come together with io.EOF (as io.Reader allows)
 }
 
 func (r *schedReader) Read(p []byte) (int, error) {
@@ -42,6 +43,9 @@ func (r *schedReader) Read(p []byte) (int, error) {
 	}
 	n := copy(p[:want], r.data)
 	r.data = r.data[n:]
+	if r.eager && len(r.data) == 0 {
+		return n, io.EOF
+	}
 	return n, nil
 }
 
@@ -118,13 +122,17 @@ func pfbSpecOut(segs []pfbSeg) []byte {
 // concatenated output, whether every non-final call filled its buffer, and the
 // final error.
 func runPFB(stream []byte, sizes, sched []int) (line string, all []byte, filled bool, last error, panicked string) {
+	return runPFBWith(stream, sizes, sched, false)
+}
+
+func runPFBWith(stream []byte, sizes, sched []int, eager bool) (line string, all []byte, filled bool, last error, panicked string) {
 	defer func() {
 		if r := recover(); r != nil {
 			panicked = fmt.Sprint(r)
 			line = "panic"
 		}
 	}()
-	r := pfb.Decode(&schedReader{data: append([]byte{}, stream...), sched: sched})
+	r := pfb.Decode(&schedReader{data: append([]byte{}, stream...), sched: sched, eager: eager})
 	var parts []string
 	filled = true
 	for _, n := range sizes {
@@ -173,6 +181,21 @@ func pfbCase(o *suiteOut, stream []byte, sizes, sched []int, segs []pfbSeg, well
 		}
 	}
 	_ = marker
+	// the same stream from a reader that hands over its last bytes together with io.EOF: same data, same end
+	if _, all2, _, last2, pan2 := runPFBWith(stream, sizes, sched, true); pan2 != "" {
+		o.fail("C01", "no panic in the PFB decoder", caseLine+" (data with EOF)", "error value", pan2)
+	} else if same := bytes.Equal(all, all2) && pfbErrClass(last) == pfbErrClass(last2); !same && func() bool {
+		// the caller's buffers may end exactly where the data ends: the plain source reports the end with the next
+		// Read, the other one with the last bytes - ask the plain run for one more byte
+		if last != nil || !bytes.Equal(all, all2) {
+			return true
+		}
+		_, all3, _, last3, _ := runPFBWith(stream, append(append([]int{}, sizes...), 1), sched, false)
+		return !bytes.Equal(all3, all2) || pfbErrClass(last3) != pfbErrClass(last2)
+	}() {
+		o.fail("C14", "the decoded data and the way the stream ends do not depend on whether the source reports EOF with its last bytes", caseLine+" (data with EOF)",
+			hx(all)+":"+pfbErrClass(last), hx(all2)+":"+pfbErrClass(last2))
+	}
 	o.emit(caseLine, line, len(stream) > 2)
 }
 
